@@ -2,6 +2,7 @@ package main
 
 import (
 	"fmt"
+	"path"
 	"sort"
 	"strings"
 )
@@ -45,17 +46,115 @@ type Layout struct {
 	Resolver string // "single-file" | "follow-schema" | "none"
 	Worker   int    // exec.worker_limit: 0 | 2
 	Models   string // "generated" | "autobind" (hand-written package probe/hand) | "autobind-self" (autobind names the package that also receives models_gen.go; a few hand-written types live there)
-	ModelPkg string // where modelgen writes: "separate" (graph/model, package model) | "same" (graph/models_gen.go, the exec package)
+	ModelPkg string // where modelgen writes: "separate" (<exec dir>/model, package model) | "same" (the exec package)
+	Dirs     Dirs   // where schema / exec / model / resolver files live relative to each other and to the module root
+}
+
+// Dirs is the directory-layout part of a Layout; the zero value is the layout used before this
+// dimension existed.
+type Dirs struct {
+	// Schema: where the schema files are.
+	//   ""        an unrelated directory (schema/)
+	//   "below"   below the exec directory (<exec dir>/schema/): the only place go:embed reaches
+	//   "sibling" a sibling of the exec directory whose NAME HAS THE EXEC DIRECTORY'S NAME AS A PREFIX (graph -> graphql)
+	//   "root"    the module root
+	//   "parent"  the parent of the exec directory (exec moves to pkg/graph, schema in pkg/)
+	Schema string
+	// Place: where the generated packages are.
+	//   ""     sub-directories (exec in graph/, models in graph/model or graph/, resolvers in resolvers/ or graph/)
+	//   "root" the exec package IS the module root package (models there too with ModelPkg "same", in
+	//          model/ with "separate"; follow-schema resolvers in the root package as well)
+	Place string
+	// Nested: the module is a sub-directory (svc/) of a directory that has its own go.mod.
+	Nested bool
+}
+
+func (d Dirs) String() string {
+	var p []string
+	if d.Schema != "" {
+		p = append(p, "schema="+d.Schema)
+	}
+	if d.Place != "" {
+		p = append(p, "place="+d.Place)
+	}
+	if d.Nested {
+		p = append(p, "nested-module")
+	}
+	return strings.Join(p, ",")
+}
+
+// Valid: a schema directory next to / above the module root only exists inside the project when
+// the module is nested.
+func (l Layout) Valid() bool {
+	if l.Dirs.Place == "root" && !l.Dirs.Nested && (l.Dirs.Schema == "sibling" || l.Dirs.Schema == "parent") {
+		return false
+	}
+	return true
+}
+
+// Paths are the concrete locations of a layout, relative to the module directory.
+type Paths struct {
+	ModDir      string // module directory relative to the project directory ("" or "svc")
+	SchemaDir   string
+	ExecDir     string
+	ExecImport  string
+	ExecPkg     string
+	ModelDir    string
+	ModelImport string
+	ModelPkg    string
+	Stub        string
+}
+
+func (l Layout) Paths() Paths {
+	p := Paths{ExecDir: "graph", ExecImport: "probe/graph", ExecPkg: "graph"}
+	if l.Dirs.Nested {
+		p.ModDir = "svc"
+	}
+	switch {
+	case l.Dirs.Place == "root":
+		p.ExecDir, p.ExecImport, p.ExecPkg = ".", "probe", "probe"
+	case l.Dirs.Schema == "parent":
+		p.ExecDir, p.ExecImport = "pkg/graph", "probe/pkg/graph"
+	}
+	p.ModelDir, p.ModelImport, p.ModelPkg = p.ExecDir, p.ExecImport, p.ExecPkg
+	if l.ModelPkg != "same" {
+		p.ModelDir, p.ModelImport, p.ModelPkg = path.Join(p.ExecDir, "model"), p.ExecImport+"/model", "model"
+	}
+	switch l.Dirs.Schema {
+	case "below":
+		p.SchemaDir = path.Join(p.ExecDir, "schema")
+	case "sibling":
+		if p.ExecDir == "." {
+			p.SchemaDir = "../svcql" // nested only: sibling of the module directory svc
+		} else {
+			p.SchemaDir = p.ExecDir + "ql"
+		}
+	case "root":
+		p.SchemaDir = "."
+	case "parent":
+		p.SchemaDir = path.Dir(p.ExecDir)
+		if p.ExecDir == "." {
+			p.SchemaDir = ".."
+		}
+	default:
+		p.SchemaDir = "schema"
+	}
+	p.Stub = path.Join(p.ExecDir, "stub.go")
+	return p
 }
 
 func (l Layout) String() string {
-	return fmt.Sprintf("exec=%s,resolver=%s,worker_limit=%d,models=%s,modelpkg=%s", l.Exec, l.Resolver, l.Worker, l.Models, l.ModelPkg)
+	s := fmt.Sprintf("exec=%s,resolver=%s,worker_limit=%d,models=%s,modelpkg=%s", l.Exec, l.Resolver, l.Worker, l.Models, l.ModelPkg)
+	if d := l.Dirs.String(); d != "" {
+		s += "," + d
+	}
+	return s
 }
 
 // baseline layout used by failure minimisation.
-var baseLayout = Layout{"single-file", "none", 0, "generated", "separate"}
+var baseLayout = Layout{"single-file", "none", 0, "generated", "separate", Dirs{}}
 
-const layoutDims = 5
+const layoutDims = 8
 
 // ResetDim resets dimension i (0 models, 1 worker_limit, 2 resolver layout, 3 exec layout, 4 model package) to
 // the baseline; ok is false when it already has the baseline value.
@@ -72,8 +171,14 @@ func (l Layout) ResetDim(i int) (Layout, bool) {
 		t.Exec = baseLayout.Exec
 	case 4:
 		t.ModelPkg = baseLayout.ModelPkg
+	case 5:
+		t.Dirs.Nested = false
+	case 6:
+		t.Dirs.Schema = ""
+	case 7:
+		t.Dirs.Place = ""
 	}
-	return t, t != l
+	return t, t != l && t.Valid()
 }
 
 // NonBaseline names the dimensions that differ from the baseline layout.
@@ -94,6 +199,9 @@ func (l Layout) NonBaseline() string {
 	if l.ModelPkg != baseLayout.ModelPkg {
 		p = append(p, "modelpkg="+l.ModelPkg)
 	}
+	if d := l.Dirs.String(); d != "" {
+		p = append(p, d)
+	}
 	if len(p) == 0 {
 		return "baseline-layout"
 	}
@@ -107,7 +215,7 @@ func allLayouts() []Layout {
 			for _, w := range []int{0, 2} {
 				for _, m := range []string{"generated", "autobind", "autobind-self"} {
 					for _, p := range []string{"separate", "same"} {
-						out = append(out, Layout{e, r, w, m, p})
+						out = append(out, Layout{e, r, w, m, p, Dirs{}})
 					}
 				}
 			}
@@ -175,22 +283,20 @@ func deviant(key string) string {
 // hand-written models (autobind) in probe/hand, resolvers in graph/ (follow-schema, same package
 // as exec — the gqlgen init default) or resolvers/ (single-file, separate package).
 func (c Config) YAML() string {
+	p := c.Layout.Paths()
+	join := func(dir, f string) string { return path.Join(dir, f) }
 	var b strings.Builder
-	b.WriteString("schema:\n  - schema/*.graphqls\n")
-	b.WriteString("exec:\n  package: graph\n")
+	b.WriteString("schema:\n  - \"" + join(p.SchemaDir, "*.graphqls") + "\"\n")
+	b.WriteString("exec:\n  package: " + p.ExecPkg + "\n")
 	if c.Layout.Exec == "single-file" {
-		b.WriteString("  layout: single-file\n  filename: graph/generated.go\n")
+		b.WriteString("  layout: single-file\n  filename: " + join(p.ExecDir, "generated.go") + "\n")
 	} else {
-		b.WriteString("  layout: follow-schema\n  dir: graph\n  filename_template: \"{name}.generated.go\"\n")
+		b.WriteString("  layout: follow-schema\n  dir: " + p.ExecDir + "\n  filename_template: \"{name}.generated.go\"\n")
 	}
 	if c.Layout.Worker != 0 {
 		fmt.Fprintf(&b, "  worker_limit: %d\n", c.Layout.Worker)
 	}
-	if c.Layout.ModelPkg == "same" {
-		b.WriteString("model:\n  filename: graph/models_gen.go\n  package: graph\n")
-	} else {
-		b.WriteString("model:\n  filename: graph/model/models_gen.go\n  package: model\n")
-	}
+	b.WriteString("model:\n  filename: " + join(p.ModelDir, "models_gen.go") + "\n  package: " + p.ModelPkg + "\n")
 	has := map[string]bool{}
 	for _, d := range c.Dev {
 		has[d] = true
@@ -199,7 +305,7 @@ func (c Config) YAML() string {
 	case "single-file":
 		b.WriteString("resolver:\n  layout: single-file\n  filename: resolvers/resolver.go\n  package: resolvers\n")
 	case "follow-schema":
-		b.WriteString("resolver:\n  layout: follow-schema\n  dir: graph\n  package: graph\n  filename_template: \"{name}.resolvers.go\"\n")
+		b.WriteString("resolver:\n  layout: follow-schema\n  dir: " + p.ExecDir + "\n  package: " + p.ExecPkg + "\n  filename_template: \"{name}.resolvers.go\"\n")
 	}
 	if c.Layout.Resolver != "none" {
 		for _, d := range c.Dev {
@@ -212,11 +318,7 @@ func (c Config) YAML() string {
 	case "autobind":
 		b.WriteString("autobind:\n  - probe/hand\n")
 	case "autobind-self":
-		if c.Layout.ModelPkg == "same" {
-			b.WriteString("autobind:\n  - probe/graph\n")
-		} else {
-			b.WriteString("autobind:\n  - probe/graph/model\n")
-		}
+		b.WriteString("autobind:\n  - " + p.ModelImport + "\n")
 	}
 	keys := append([]string(nil), c.Dev...)
 	sort.Strings(keys)
